@@ -30,11 +30,11 @@ func c05Gen(seed uint64, i int) *c05Case {
 	rng := gen.Derive(seed, "C05", i)
 	sc := gen.DefaultScope
 	sc.CapHeavy = true
-	sc.Globals = i%3 == 0
+	sc.Globals = rng.Chance(1, 3)
 	sc.GlobalCaps = true
 	sc.Preds = false
 	sc.MaxDepth = 2
-	if i%2 == 0 {
+	if rng.Bool() {
 		sc.Alpha = "ab1"
 	}
 	pg := gen.NewPG(rng, sc)
@@ -120,7 +120,7 @@ func c05Gen(seed uint64, i int) *c05Case {
 			cs.with = append(cs.with, gen.WithItem{Kind: "str", S: "/"}, gen.WithItem{Kind: "var", S: name})
 		}
 	}
-	if i%3 == 2 {
+	if rng.Chance(1, 3) {
 		// the same amount clause on both commands: built-ins such as matchNumber must stay those of the match
 		c.Amount = gen.RandomAmount(rng)
 	}
